@@ -212,6 +212,27 @@ class Lockstep:
         if any(s2 for s2 in sh.assocs if a.key in s2.left or a.key in s2.right):
             self.count('class:refused-add-of-a-linked-asset')
 
+    def op_add_asset_wrong_id_type(self, typ, form):
+        """add_asset with an explicit id of a wrong type that still hashes and adds like the integer (5.0, True, '5'):
+        the schema refuses it; nothing may stay behind - the same id as an int is free for the next, valid, add"""
+        sh, m = self.sh, self.model
+        cls = getattr(self.factory.ns, typ)
+        k = 1 if form == 'bool' else max(list(sh.live_ids()) + [0]) + 2
+        if k in sh.live_ids():
+            return
+        bad = {'float': float(k), 'bool': True, 'str': str(k)}[form]
+        obj = cls(name='x-wrong-id-%d' % self.step_no)
+        raised = self._expect_raise('add_asset-wrong-id-type', lambda: m.add_asset(obj, asset_id=bad))
+        if not raised:
+            key = self.key()
+            a = SAsset(key, typ)
+            a.id, a.name = int(obj.id), str(obj.name)
+            sh.assets.append(a)
+            self.real[key] = obj
+            return
+        self.count('class:refused-add-with-wrong-typed-id:' + form)
+        self.op_add_asset(typ, 'after-wrong-id-%d' % self.step_no, k, True)
+
     def op_add_ep_empty(self, tref, aref):
         """an entry point without steps, put there directly (the attachment's list is a public field;
         AttackerAttachment(entry_points=[(asset, [])]) and a file with attack_steps: [] give the same)"""
@@ -866,8 +887,10 @@ def gen_history(rng, lang, n, invalid=0.2, names=None, attackers=True):
             elif rng.random() < 0.02:
                 name = rng.choice(['n' * 300, ' padded ', '0123456789' * 13, 'e\u0301', '1', 'true'])
             ops.append(['add_asset', typ, name, aid, rng.random() < 0.8] + (['pjs'] if aid is not None and rng.random() < 0.3 else []))
-        elif r < 0.30:
+        elif r < 0.29:
             ops.append(['re_add_asset', rref(rng, 0)])
+        elif r < 0.30:
+            ops.append(['add_asset_wrong_id_type', rng.choice(conc), rng.choice(['float', 'float', 'bool', 'str'])])
         elif r < 0.40:
             ops.append(['remove_asset', rref(rng, 0.5 if bad else 0.0)])
         elif r < 0.62:
